@@ -91,6 +91,10 @@ def view(func: ast.AST, iterable: ast.AST, target: ast.AST, body: Optional[List[
             start, stop = args
         else:
             return None
+        if isinstance(stop, ast.Name):   # a hoisted `total = len(X)`
+            values = bound_from(func, stop.id)
+            if len(values) == 1:
+                stop = values[0]
         if not (isinstance(stop, ast.Call) and call_name(stop) == "len" and len(stop.args) == 1):
             return None
         out.seq = txt(resolve_alias(func, stop.args[0]))
